@@ -94,6 +94,10 @@ func init() {
 			var idxCall, linesCall ssa.Instruction
 			for _, ci := range callsIn(w) {
 				if isStaticCallTo(ci, wi) {
+					if _, deferred := ci.(*ssa.Defer); deferred {
+						c.Violate(fnKey(w)+" / index-write-deferred", ci.Pos(), "the index entry is written by a deferred call, i.e. after the lines of the second")
+						return
+					}
 					idxCall = ci.(ssa.Instruction)
 				}
 				if isStaticCallTo(ci, wl) {
@@ -394,6 +398,10 @@ func init() {
 			var idxCall, linesCall ssa.Instruction
 			for _, ci := range callsIn(w) {
 				if isStaticCallTo(ci, wi) {
+					if _, deferred := ci.(*ssa.Defer); deferred {
+						c.Violate(fnKey(w)+" / index-write-deferred", ci.Pos(), "the index entry is written by a deferred call, i.e. after the lines of the second")
+						return
+					}
 					idxCall = ci.(ssa.Instruction)
 				}
 				if isStaticCallTo(ci, wl) {
